@@ -237,6 +237,12 @@ class FuncPaths:
             return set(), set()      # cyclic definition: nothing beyond the other definitions
         if depth <= 0:
             return {(name,)}, set()
+        vals = self.d.values.get(name, [])
+        if vals and all(isinstance(v, ast.Call) for _, v, _ in vals if v is not None) and \
+                all(k.startswith('assign') for k, _, _ in vals):
+            # the result of a call is a value of its own: `dt = unwrap(x)` then `dt.name` and
+            # `dt.format` are two different things, not both "all of x"
+            return {(name,)}, set()
         self._expanding.add(name)
         reads, tests = set(), set()
         try:
